@@ -417,7 +417,7 @@ func runC06(r *mc.Run) {
 		depth = 4
 		r.SetBudget(13 * 60 * 1e9)
 	} else {
-		r.SetBudget(170 * 1e9)
+		r.SetBudget(300 * 1e9)
 	}
 	r.Bounds["depth_blocks"] = depth
 	r.Rule = "tree search over block histories of the real application with queue-filling events (1/3 new block hashes, gap and rewrite batches, 9 deposits, 1+1 deposits, a batch listing one deposit twice, an approval listing one id twice, 9 withdrawals + 3 undecodable, process 9, finalize, 17 claims + 17 unlocks, failing execution-block message, 2 abandoned PrepareProposal rounds, restart); a reference ledger of owed items is compared with the system transactions of every finalised payload (FIFO per kind, caps, consecutive nonces, nothing dropped/duplicated/invented); every trace is drained with empty blocks; at every node with non-empty dues 9 mutations of the leading system transactions must be rejected by ProcessProposal and fail in FinalizeBlock"
